@@ -98,6 +98,13 @@ func cmdCRtGuards(c *ctx) {
 					c.line("text.txt", q(text))
 					continue
 				}
+				// the text must also be readable (atomics take the address of the guarded element)
+				if _, perr := cparse(text); perr != nil {
+					c.line("rows.txt", fmt.Sprintf("unreadable %s | %s", oneLine(perr.Error()), tag))
+					c.line("src.txt", q(src))
+					c.line("text.txt", q(text))
+					continue
+				}
 				ms := reRtGuard.FindAllStringSubmatch(text, -1)
 				if len(ms) == 0 {
 					c.line("rows.txt", "noguard | "+tag)
